@@ -101,7 +101,7 @@ def parse(case, out):
             info["assert"] = l
         elif w[0] == "s":
             info["ops"].append(l)
-            if w[2:5] == ["load", "owner", "ptr"]:
+            if w[2:5] == ["load", "owner", "ptr"] and int(w[1]) < len(threads) and threads[int(w[1])][0] == "d":
                 info["dtor_resolved"] = True
         elif w[0] == "counted":
             info["counted"] = l
